@@ -2,7 +2,7 @@
 import looplib as L
 from vlib import Failure, finish, hexs
 
-COQ_FILES = L.LOOP_COQ_FILES
+COQ_FILES = L.LOOP_COQ_FILES + L.REFINE_COQ_FILES + ["LoopDrainProofs.v"]
 
 GARBAGE = [b"foo\n", b"\xff\xfe\n", b"ACK [5@0] {} nope\n", b"OK\nOK\n", b"x: y\n", b"binary: 99999\n", b"list_OK\nOK\n", b"ACK [x@0] {} z\n", b"OK\n"]
 INVALID = {b"foo\n", b"\xff\xfe\n", b"ACK [x@0] {} z\n"}
